@@ -159,6 +159,16 @@ structure Scope where
 
 abbrev EM := StateT Flat (Except String)
 
+/-- an OUT port with a default expression that is associated with a signal: the default is the initial value of the drivers
+inside the instance, hence (LRM 14.7.5.2, initial driving/effective values) of the whole net -/
+def setSigInit (name : String) (v : Val) : EM Unit :=
+  modify fun f => { f with sigs := f.sigs.map fun (n, ty, old) => if n == name then (n, ty, normVal v) else (n, ty, old) }
+
+def portDefault (p : Port) : Except String Val :=
+  match p.init with
+  | some e => evalRhs constRd p.ty e
+  | none => .ok p.ty.default
+
 def addSig (name : String) (ty : Ty) (v : Val) : EM Unit := do
   let f ← get
   if f.sigs.any (·.1 == name) then throw s!"duplicate signal '{name}'"
@@ -221,15 +231,15 @@ partial def elabBody (design : DesignFile) (sc : Scope) (depth : Nat) : List Con
         for p in ent.ports do
           match map.find? (·.formal == p.name) with
           | none =>
-            if p.dir == .input then throw s!"instance '{label}': input port '{p.name}' is not associated"
+            if p.dir == .input && p.init.isNone then throw s!"instance '{label}': input port '{p.name}' is not associated"
             let g := path' ++ p.name
-            addSig g p.ty p.ty.default
+            addSig g p.ty (← (portDefault p : Except String Val))
             ren := ren.insert p.name g; tys := tys.insert g p.ty
           | some a =>
             match a.actual with
             | none =>
               let g := path' ++ p.name
-              addSig g p.ty p.ty.default
+              addSig g p.ty (← (portDefault p : Except String Val))
               ren := ren.insert p.name g; tys := tys.insert g p.ty
             | some e =>
               match actualName? e with
@@ -246,6 +256,7 @@ partial def elabBody (design : DesignFile) (sc : Scope) (depth : Nat) : List Con
                   if a.formalConv.isSome && p.dir == .input then throw s!"instance '{label}': conversion on the formal of input port '{p.name}'"
                   if actualTag != formalTag then throw s!"instance '{label}': type mismatch in the association of port '{p.name}'"
                   if tyWidth aty != tyWidth p.ty then throw s!"instance '{label}': width mismatch in the association of port '{p.name}' ({tyWidth p.ty} vs {tyWidth aty})"
+                  if p.dir == .output && p.init.isSome then setSigInit g (← (portDefault p : Except String Val))
                   ren := ren.insert p.name g; tys := tys.insert g p.ty
               | none =>
                 if p.dir != .input then throw s!"instance '{label}': expression associated with non-input port '{p.name}'"
@@ -466,6 +477,18 @@ def parseTbHeader (text : String) : Except String TbHeader := do
   let mut i := 0
   while i < n do
     match toks[i]!, toks[i+1]?, toks[i+2]?, toks[i+3]? with
+    | .id "signal", some (.id name), some (.sym ":"), some (.id "std_logic_vector") =>
+      -- SIGNAL name : STD_LOGIC_VECTOR(h downto 0) [:= (others => 'c')];
+      match toks[i+4]?, toks[i+5]?, toks[i+6]?, toks[i+7]?, toks[i+8]?, toks[i+9]? with
+      | some (.sym "("), some (.num hi), some (.id "downto"), some (.num 0), some (.sym ")"), some (.sym ":=") =>
+        match toks[i+10]?, toks[i+11]?, toks[i+12]?, toks[i+13]?, toks[i+14]? with
+        | some (.sym "("), some (.id "others"), some (.sym "=>"), some (.chr c), some (.sym ")") =>
+          match SL.ofChar c with
+          | some b => h := { h with sigInit := h.sigInit ++ [(name, .slv (List.replicate (hi + 1) b))] }
+          | none => throw s!"testbench: bad initial value of '{name}'"
+        | _, _, _, _, _ => throw s!"testbench: unsupported initial value of '{name}'"
+      | _, _, _, _, _, _ => pure ()
+      i := i + 4
     | .id "signal", some (.id name), some (.sym ":"), some (.id "std_logic") =>
       match toks[i+4]?, toks[i+5]? with
       | some (.sym ":="), some (.chr c) =>
